@@ -324,7 +324,90 @@ pub fn check_fault(c: &FaultCase) -> PResult {
     Ok(())
 }
 
-pub const C10_RULE: &str = "runtime part: run-time described messages over the codec modules (groups, btree maps and every scalar codec included): the reference encoding of a generated value with one fault (truncation, bit flip, byte overwritten by 00/01/7f/80/ff/start-group/end-group, trailing group markers / over-long varint / oversized length) is decoded under panic capture and the allocation bound, alone and as a length-delimited frame followed by more data (same verdict, same message, frame consumed exactly); chains of known groups, embedded messages and both alternating nested 1..300 deep: <= 100 accepted with the value intact, >= 101 refused";
+/// The well-known wrapper messages (`impl Message for bool / u32 / ... / String / Vec<u8> / Bytes / ()`):
+/// any bytes give a value or an error; what is accepted re-encodes with `encoded_len` bytes and
+/// decodes to the same value again (NaN: the same bytes).
+fn wrapper_probe<M: Message + Default + PartialEq + std::fmt::Debug>(name: &str, input: &[u8]) -> PResult {
+    let lim = vrt::total::limits_for(input.len());
+    let show = || format!("wrapper {} input {}", name, vcore::tval::hex(&input[..input.len().min(96)]));
+    let (r, _) = vrt::total::observe(&format!("pb-wrapper-{}", name), lim, || M::decode(Bytes::copy_from_slice(input))).map_err(|f| Fail::new(&f.key, format!("{}
+ {}", f.msg, show())))?;
+    let (d, _) = vrt::total::observe(&format!("pb-wrapper-delimited-{}", name), lim, || M::decode_length_delimited(Bytes::copy_from_slice(input)).is_ok()).map_err(|f| Fail::new(&f.key, format!("{}
+ {}", f.msg, show())))?;
+    let _ = d;
+    if let Ok(m) = r {
+        let out = catch(|| (m.encoded_len(), m.encode_to_vec())).map_err(|p| Fail::new(&format!("panic:pb-wrapper-reencode:{}", vrt::total::panic_signature(&p)), format!("re-encoding panicked: {}
+ {}", p, show())))?;
+        ensure!(out.0 == out.1.len(), "pb-wrapper-encoded-len", "encoded_len() = {}, {} bytes written
+ {}", out.0, out.1.len(), show());
+        let again = M::decode(Bytes::copy_from_slice(&out.1)).map_err(|e| Fail::new("pb-wrapper-own-encoding-rejected", format!("{:?}
+ {}", e, show())))?;
+        ensure!(again == m || again.encode_to_vec() == out.1, "pb-wrapper-roundtrip", "decode(encode(m)) differs: {:?} vs {:?}
+ {}", m, again, show());
+    }
+    Ok(())
+}
+
+pub fn check_wrappers(input: &[u8]) -> PResult {
+    wrapper_probe::<bool>("bool", input)?;
+    wrapper_probe::<u32>("u32", input)?;
+    wrapper_probe::<u64>("u64", input)?;
+    wrapper_probe::<i32>("i32", input)?;
+    wrapper_probe::<i64>("i64", input)?;
+    wrapper_probe::<f32>("f32", input)?;
+    wrapper_probe::<f64>("f64", input)?;
+    wrapper_probe::<String>("String", input)?;
+    wrapper_probe::<Vec<u8>>("Vec<u8>", input)?;
+    wrapper_probe::<Bytes>("Bytes", input)?;
+    wrapper_probe::<()>("()", input)
+}
+
+/// Inputs for the wrapper messages: a valid `value = 1` record of some wire type, optionally
+/// damaged, or raw bytes.
+fn arb_wrapper_input() -> BoxedStrategy<Vec<u8>> {
+    let rec = (0u8..6, any::<u64>(), prop::collection::vec(any::<u8>(), 0..20), 1u32..4).prop_map(|(k, v, payload, tag)| {
+        let mut o = vec![];
+        match k {
+            0 => {
+                put_key(&mut o, tag, 0);
+                put_varint(&mut o, v);
+            }
+            1 => {
+                put_key(&mut o, tag, 1);
+                o.extend_from_slice(&v.to_le_bytes());
+            }
+            2 => {
+                put_key(&mut o, tag, 5);
+                o.extend_from_slice(&(v as u32).to_le_bytes());
+            }
+            3 => {
+                put_key(&mut o, tag, 2);
+                put_varint(&mut o, payload.len() as u64);
+                o.extend_from_slice(&payload);
+            }
+            4 => {
+                put_key(&mut o, tag, 2);
+                put_varint(&mut o, v);
+                o.extend_from_slice(&payload);
+            }
+            _ => {
+                put_key(&mut o, tag, 3);
+                put_key(&mut o, 1, 0);
+                put_varint(&mut o, v);
+                put_key(&mut o, tag, 4);
+            }
+        }
+        o
+    });
+    prop_oneof![
+        4 => prop::collection::vec(rec, 1..4).prop_map(|v| v.concat()),
+        2 => (prop::collection::vec(any::<u8>(), 0..40)),
+        1 => prop::collection::vec(prop_oneof![0u8..24, any::<u8>()], 0..30),
+    ]
+    .boxed()
+}
+
+pub const C10_RULE: &str = "runtime part: run-time described messages over the codec modules (groups, btree maps and every scalar codec included): the reference encoding of a generated value with one fault (truncation, bit flip, byte overwritten by 00/01/7f/80/ff/start-group/end-group, trailing group markers / over-long varint / oversized length) is decoded under panic capture and the allocation bound, alone and as a length-delimited frame followed by more data (same verdict, same message, frame consumed exactly); chains of known groups, embedded messages and both alternating nested 1..300 deep: <= 100 accepted with the value intact, >= 101 refused; the well-known wrapper messages (bool, u32, u64, i32, i64, f32, f64, String, Vec<u8>, Bytes, ()) on valid, damaged and random records: a value or an error, and what is accepted re-encodes with encoded_len bytes to the same value";
 
 pub fn c10_runtime_part(ctx: &Ctx, rec: &std::cell::RefCell<vcore::evidence::Recorder>) {
     let mut reported = std::collections::BTreeSet::new();
@@ -360,6 +443,19 @@ pub fn c10_runtime_part(ctx: &Ctx, rec: &std::cell::RefCell<vcore::evidence::Rec
     });
     if let Some((case, f)) = res {
         report(ctx, rec, "pb-runtime-fault", &case, &f);
+        return;
+    }
+    // the well-known wrapper messages
+    let res = vcore::evidence::run_prop_noshrink(rec, "c10-wrappers", ctx.tier.pick(20_000, 600_000), arb_wrapper_input(), |input: &Vec<u8>| {
+        {
+            let mut r = rec.borrow_mut();
+            r.case(fp(input), true, || json!(vcore::tval::hex(input)));
+            r.class("runtime: wrapper messages");
+        }
+        check_wrappers(input)
+    });
+    if let Some((input, f)) = res {
+        report(ctx, rec, "pb-wrapper", &json!({"hex": vcore::tval::hex(&input)}), &f);
     }
 }
 
@@ -367,6 +463,10 @@ pub fn c10_replay(ctx: &Ctx) -> i32 {
     let rp = ctx.replay.as_ref().unwrap();
     let res = if rp["sub"].as_str() == Some("pb-runtime-chain") {
         check_chain(&serde_json::from_value(rp["case"]["case"].clone()).expect("replay case"))
+    } else if rp["sub"].as_str() == Some("pb-wrapper") {
+        let hexs = rp["case"]["case"]["hex"].as_str().unwrap_or("");
+        let bytes: Vec<u8> = (0..hexs.len() / 2).filter_map(|i| u8::from_str_radix(&hexs[2 * i..2 * i + 2], 16).ok()).collect();
+        check_wrappers(&bytes)
     } else {
         check_fault(&serde_json::from_value(rp["case"]["case"].clone()).expect("replay case"))
     };
